@@ -30,6 +30,9 @@ CONSTANTS Callers,      \* run-now requests
                         \* `active := TRUE` without looking at `finalised`
           PrefixCancellers, \* the cancellers that use CancelJobs(prefix): they first LIST the matching names under the
                         \* table lock (KList) and cancel each name found afterwards (KLookup, KSignal)
+          BlockingSend, \* FALSE = intended protocol (a run-now request does not wait for room in the run channel: a pending
+                        \* signal starts the job just as well).  TRUE = named deviation of the pinned code: the send waits,
+                        \* with the state lock held, while an earlier request's signal is still in the channel
           DropOnClaim   \* FALSE = intended protocol.  TRUE adds the named deviation GTDrop: the
                         \* pinned code's timer branch leaving when it sees the job claimed
 
@@ -94,11 +97,14 @@ RCheck(c) ==
             /\ cpc' = [cpc EXCEPT ![c] = "h"] /\ cres' = cres
     /\ UNCHANGED <<inTable, bInTable, bLive, finalised, closed, runCh, cancelCh, gpc, runs, running, timerExpired, ctxDone, panicked, kpc, kres, took>>
 
-\* a send on a full 1-buffered channel blocks (the action is disabled); on a closed channel it panics
+\* on a closed channel a send panics; on a full 1-buffered channel it would block (the action is disabled) - the
+\* intended protocol does not wait (select with default), the pinned code did (BlockingSend)
 RSend(c) ==
     /\ cpc[c] = "h" /\ lock = c
     /\ \/ closed /\ panicked' = TRUE /\ runCh' = runCh
        \/ ~closed /\ runCh = 0 /\ runCh' = 1 /\ panicked' = panicked
+       \* the channel still holds an earlier request's signal (periodic job whose instance the timer started)
+       \/ ~closed /\ runCh = 1 /\ ~BlockingSend /\ runCh' = 1 /\ panicked' = panicked
     /\ lock' = "free"
     /\ cpc' = [cpc EXCEPT ![c] = "done"] /\ cres' = [cres EXCEPT ![c] = "ok"]
     /\ UNCHANGED <<inTable, bInTable, bLive, active, finalised, closed, cancelCh, gpc, runs, running, timerExpired, ctxDone, kpc, kres, took>>
